@@ -62,11 +62,13 @@ pub fn gen_plan(seed: u64, index: usize, _tier: Tier) -> Plan {
     k.stream_recv_window = *rng.pick(&[4096u64, 16384, 65536]);
     k.recv_window = k.stream_recv_window * *rng.pick(&[1u64, 2, 8]);
     let server_under_test = index % 2 == 0;
-    let nstalled = match rng.below(6) {
+    let nstalled = match rng.below(8) {
         0 | 1 | 2 => 1,
         3 => 2,
         4 => rng.usize(3, 4),
-        _ => rng.usize(5, 6),
+        5 => rng.usize(5, 6),
+        6 => rng.usize(7, 12),
+        _ => rng.usize(13, 40),
     };
     let nhealthy = rng.usize(1, 5);
     let mut ops = Vec::new();
@@ -572,7 +574,7 @@ pub fn def() -> PropertyDef {
     PropertyDef {
         id: "C07",
         scenarios: vec![Box::new(Typed(C07Raw))],
-        rule: "Each run: a scripted raw QUIC peer (client role against the real server on even indexes, server role against the real client on odd ones) opens 1-6 stalled streams (uni/bidi; no byte, first byte of the 2-byte type, type without session id, first byte of a 2/4/8-byte session id, complete preamble then silence, complete preamble plus unread data) interleaved in generated order with 1-5 healthy WebTransport streams (tagged payloads 0..5000 B), datagrams, quiescence points and sleeps; then datagrams on a quiet network and a close capsule. The application keeps accepting. Oracle (bounded liveness, no faults): every healthy stream accepted and read byte-exact within 30 s simulated, every late datagram received, all three pending calls report ApplicationClosed with the capsule's code within 30 s. Non-trivial = at least one stalled and one healthy stream in the run; distinct = distinct plan hashes.",
+        rule: "Each run: a scripted raw QUIC peer (client role against the real server on even indexes, server role against the real client on odd ones) opens 1-40 stalled streams (uni/bidi; no byte, first byte of the 2-byte type, type without session id, first byte of a 2/4/8-byte session id, complete preamble then silence, complete preamble plus unread data) interleaved in generated order with 1-5 healthy WebTransport streams (tagged payloads 0..5000 B), datagrams, quiescence points and sleeps; then datagrams on a quiet network and a close capsule. The application keeps accepting. Oracle (bounded liveness, no faults): every healthy stream accepted and read byte-exact within 30 s simulated, every late datagram received, all three pending calls report ApplicationClosed with the capsule's code within 30 s. Non-trivial = at least one stalled and one healthy stream in the run; distinct = distinct plan hashes.",
         assumptions: vec![
             "bounded liveness is judged on a fault-free simulated network after the script has finished",
             "the raw peer and reference codec are harness code (validated against RFC worked examples at start-up)",
